@@ -11,6 +11,8 @@ import (
 	"strconv"
 	"strings"
 
+	googleproto "google.golang.org/protobuf/proto"
+
 	"github.com/projectcalico/calico/felix/generictables"
 	"github.com/projectcalico/calico/felix/ipsets"
 	"github.com/projectcalico/calico/felix/proto"
@@ -564,18 +566,118 @@ func (s *state) evalPkt(h *rt.H, w []string) string {
 		return out
 	}
 	if res.Kind != wantKind || res.Mark&(mAccept|mPass|mDrop) != wantBits {
-		sig := "render-not-exact"
-		switch {
-		case s.positiveBlocks(s.rule) >= 3:
-			sig = "three-positive-blocks"
-		case s.nft && func() bool { _, ok := s.rule.NotIcmp.(*proto.Rule_NotIcmpTypeCode); return ok }():
-			sig = "nft-not-icmp-type-code"
-		}
+		sig := s.classify(pe, m, res, act, deny)
 		h.OracleFail(sig, fmt.Sprintf("rule %q (nft=%v v6=%v) on packet %v: rule matches=%v but rendered rules give %s mark=%#x (want %s, verdict bits %#x)",
 			encRule(s.rule), s.nft, s.v6, w[1:], m, res.Kind, res.Mark, wantKind, wantBits),
 			map[string]any{"rule": encRule(s.rule), "nft": s.nft, "v6": s.v6, "pkt": strings.Join(w, " "), "rendered": s.text})
 	}
 	return out
+}
+
+// matchOutcome: what the rendered rules must do when the rule matches.
+func matchOutcome(act, deny string) (string, uint32, bool) {
+	switch act {
+	case "", "allow":
+		return "return", mAccept, true
+	case "pass", "next-tier":
+		return "return", mPass, true
+	case "deny":
+		return deny, mDrop, true
+	}
+	return "return", 0, false // log: indistinguishable from no match
+}
+
+// evalRule renders `r` with the real renderer and evaluates it on the packet.
+func (s *state) evalRule(r *proto.Rule, pe *pktEnv) (res nfsem.Result, ok bool) {
+	defer func() {
+		if e := recover(); e != nil {
+			ok = false
+		}
+	}()
+	v := uint8(4)
+	if s.v6 {
+		v = 6
+	}
+	rs := s.r.ProtoRuleToIptablesRules(r, v, s.owner, s.dir, s.idx, polID(s.id), "default", s.untracked)
+	var text []string
+	for _, gr := range rs {
+		t := nfsem.RenderRule(s.nft, v, "c", gr)
+		if t == "panic" {
+			return res, false
+		}
+		text = append(text, t)
+	}
+	tbl := nfsem.Parse(s.nft, []nfsem.TextChain{{Name: "c", Rules: text}})
+	return tbl.Eval(pe.env(s.nft), &pe.p, 4, "c", 0), true
+}
+
+// classify decides whether an oracle failure is EXACTLY one of the two recorded findings; anything
+// else (including other misbehaviour of rules that also have >=3 blocks / a negated ICMP type+code)
+// is reported as a new violation.
+func (s *state) classify(pe *pktEnv, m bool, res nfsem.Result, act, deny string) string {
+	mk, mb, distinguishable := matchOutcome(act, deny)
+	if !distinguishable {
+		return "render-not-exact"
+	}
+	actsMatched := func(r nfsem.Result) bool { return r.Kind == mk && r.Mark&(mAccept|mPass|mDrop) == mb }
+	v := uint8(4)
+	if s.v6 {
+		v = 6
+	}
+	// (1) three-positive-blocks: the rule does not match, the rendering acts as if it did, and the rule
+	// WOULD match if the 3rd-and-later positive blocks were ignored (i.e. blocks 1 and 2 pass and every
+	// other criterion holds: exactly the packets for which ThisBlockPass is left set by block 2).
+	if !m && actsMatched(res) && s.positiveBlocks(s.rule) >= 3 {
+		if rc := rules.FilterRuleToIPVersion(v, s.rule); rc != nil {
+			k := 0
+			if len(rules.SplitPortList(rc.SrcPorts))+len(rc.SrcNamedPortIpSetIds) > 1 {
+				if k >= 2 {
+					rc.SrcPorts, rc.SrcNamedPortIpSetIds = nil, nil
+				}
+				k++
+			}
+			if len(rules.SplitPortList(rc.DstPorts))+len(rc.DstNamedPortIpSetIds) > 1 {
+				if k >= 2 {
+					rc.DstPorts, rc.DstNamedPortIpSetIds = nil, nil
+				}
+				k++
+			}
+			if len(rc.SrcNet) > 1 {
+				if k >= 2 {
+					rc.SrcNet = nil
+				}
+				k++
+			}
+			if len(rc.DstNet) > 1 {
+				if k >= 2 {
+					rc.DstNet = nil
+				}
+				k++
+			}
+			if s.ruleMatches(rc, pe) {
+				return "three-positive-blocks"
+			}
+		}
+	}
+	// (2) nft negated ICMP type+code: the rule matches, the nft rendering does not act, the packet is ICMP
+	// with exactly one of (type == T), (code == C), and the same rule WITHOUT the negated ICMP criterion
+	// is rendered and acts correctly.
+	if nic, ok := s.rule.NotIcmp.(*proto.Rule_NotIcmpTypeCode); ok && s.nft && m && !actsMatched(res) {
+		icmpProto := 1
+		if s.v6 {
+			icmpProto = 58
+		}
+		tEq := pe.p.IcmpType == int(uint8(nic.NotIcmpTypeCode.Type))
+		cEq := pe.p.IcmpCode == int(uint8(nic.NotIcmpTypeCode.Code))
+		if pe.p.Proto == icmpProto && tEq != cEq {
+			cp := googleproto.Clone(s.rule).(*proto.Rule)
+			cp.NotIcmp = nil
+			if r2, ok := s.evalRule(cp, pe); ok && actsMatched(r2) && s.ruleMatches(cp, pe) {
+				return "nft-not-icmp-type-code"
+			}
+		}
+	}
+	return "render-not-exact"
 }
 
 func exec(h *rt.H, s *state, op string) string {
